@@ -12,11 +12,30 @@ SPEC = {
     "driver": "collmodel",
     "harness_bin": "harness_coll",
     "level": "proof",
-    "level_text": "",
-    "level_note": "",
+    "level_text": ("Lean 4 theorems over a model of IndexedMapImpl (two maps, exact insert / remove_key logic), DbImpl's alias "
+                   "operations incl. the undo stack, the alias-related queries and the element-id allocator (LIFO reuse), mirroring the "
+                   "code with the proposed fix C10-alias-validation. FULL: C10_inv_step / C10_inv_history: after EVERY finite history of "
+                   "queries (insert nodes with/without aliases, insert nodes over ids, insert edges, insert aliases with any number of "
+                   "pairs incl. failing ones and their rollback, remove aliases, remove nodes/edges by id or alias, insert values "
+                   "creating nodes, selects, index ops) the alias maps are mutually inverse, list every alias once, and every aliased id "
+                   "is positive, a live node, with a non-empty alias (C10_one_to_one); C10_insert_alias_effect (new mapping = old mapping "
+                   "with the node's previous alias dropped and the alias taken from its holder); C10_remove_alias_effect; "
+                   "C10_remove_node_effect (alias of the removed node unresolvable, all others unchanged); C10_rejected_without_effect "
+                   "(empty alias anywhere / literal edge id anywhere in InsertAliasesQuery, empty alias in InsertNodesQuery and "
+                   "InsertValuesQuery, edge id in insert-nodes-over-ids: error and state unchanged); C10_select_agrees (select ids by "
+                   "alias, select aliases of an id, select all aliases = exactly the pairs of the mapping, each once). COUNTEREXAMPLES "
+                   "on the pinned code (decide): alias on an edge survives the edge; empty alias accepted by InsertNodesQuery. Tie: "
+                   "query-level differential stream through the public API on DbMemory + an independent reference bijection oracle."),
+    "level_note": ("Trusted: Lean kernel; faithfulness of the hand-written model (validated by the db stream: every output line incl. "
+                   "allocated ids and error category/type); the two alias DbMaps are modelled through the MapImpl interface (association "
+                   "list) - that the open-addressing table implements this interface is property C19's refinement, validated by the mm "
+                   "stream, not proved here; rollback of a failing multi-pair query is modelled as the code does it (without restoring "
+                   "a stolen alias, C13) and the generator avoids inputs where that matters."),
     "technique": "Lean 4: inductive invariant (alias bijection onto live nodes) over all query histories + differential correspondence at query level + reference-bijection oracle",
     "design_ref": "DESIGN.md §6 C10",
-    "assumptions": [],
+    "assumptions": ["fix C10-alias-validation applied (on the pinned code the property is false: 2 counterexample theorems + corpus/C10)",
+                    "alias maps behave as finite maps (MapImpl interface); storage I/O errors not modelled",
+                    "database created empty by this version (no pre-existing alias on an edge)"],
     "quick": {"extra_args": []},
     "thorough": {"extra_args": []},
     "compare": "lines",
